@@ -928,6 +928,10 @@ func (r *resolver) refine(target Definition, y *Refine) error {
 	}
 	if y.maxElementsPtr != nil {
 		r.builder.MaxElements(target, *y.maxElementsPtr)
+		// a number takes the place of 'max-elements unbounded' stated in the grouping
+		if hu, valid := target.(HasUnbounded); valid && hu.IsUnboundedSet() {
+			r.builder.UnBounded(target, false)
+		}
 	}
 	if y.minElementsPtr != nil {
 		r.builder.MinElements(target, *y.minElementsPtr)
